@@ -103,8 +103,12 @@ def build_driver():
 
 
 def build_harness(name, race=False):
-    """Go in-process harness under /verif/harness/<name> (module replaces dud by /repo)."""
-    src = os.path.join(VERIF, "harness")
+    """Go in-process harness under /verif/harness/<name> (module replaces dud by the repository under test)."""
+    src = os.path.join(scratch(), "harness-src")
+    if not os.path.exists(src):
+        shutil.copytree(os.path.join(VERIF, "harness"), src)
+        gm = open(os.path.join(src, "go.mod")).read().replace("=> /repo", "=> " + REPO)
+        open(os.path.join(src, "go.mod"), "w").write(gm)
     shutil.copyfile(os.path.join(REPO, "go.sum"), os.path.join(src, "go.sum"))
     out = os.path.join(scratch(), name + ("-race" if race else ""))
     env = dict(GOENV)
